@@ -35,7 +35,7 @@ def run(ctx):
     ctx.touch(ga)
     namep = ga.posparams[1]
     cfg = typer.cfg_of(ga)
-    tabs = local_table(ga, namep)
+    tabs = local_table(ga, namep, p)
     # every CFG node that evaluates self.target
     users = []
     for cn in cfg.nodes:
